@@ -1,6 +1,7 @@
 import GscribModel.Props.MotionTie
 import GscribModel.Props.C01
 import GscribModel.Props.C02
+import GscribModel.Props.C07
 /-! # C01 and C02 for the translated source
 
 `MotionTie_run` (every history: running the translated source of the builder's commands is running the model) composed with the
@@ -174,3 +175,59 @@ example : HistOk {} [.setAxis (VPt.ofPt ⟨some 0, some 0, some 0⟩) [], .enter
   refine ⟨?_, ?_⟩
   · intro f hf; cases hf
   · intro s hs; cases hs
+
+/-! ## C05 and C07 read off the translated source -/
+namespace GscribModel.MotionTie
+theorem runBMs_run (ops : List Op) : ∀ (b : B) (ms : ModalSt),
+    runBMs (b, ms) ops = ((run b ops).1, ms.run (run b ops).2) := by
+  induction ops with
+  | nil => intro b ms; rfl
+  | cons op ops ih =>
+    intro b ms
+    simp only [runBMs, run, ih, ModalSt.run, List.foldl_append]
+end GscribModel.MotionTie
+
+open GscribModel.MotionTie in
+/-- **C07 for the translated source**: for every history, the state the *translated source* ends in is the abstraction of a
+    builder state that mirrors a modal interpreter fed the statements written - and those are, as instruction texts, axis words and
+    other words, exactly the statements the translated source wrote. -/
+theorem SourceTie_C07 (ops : List Op) (b : B) (ms : ModalSt) (hok : HistOk b ops) (hm : Mirror b ms) :
+    let g := srcRun (absB b) (b.ctx.map dmOf) ops
+    ∃ b' : B, g.1 = absB b' ∧ Mirror b' (ms.run (run b ops).2) ∧ g.2.map conv = (run b ops).2.map view := by
+  obtain ⟨h1, h2⟩ := MotionTie_run ops b hok
+  have hk := C07_mirror_run ops b ms hm ops.length
+  rw [List.take_length, runBMs_run] at hk
+  exact ⟨(run b ops).1, h1.symm, hk, h2.symm⟩
+
+namespace GscribModel.MotionTie
+theorem histOk_erase (ops : List Op) : ∀ b : B, HistOk b ops → HistOk b (eraseRejected b ops) := by
+  induction ops with
+  | nil => intro b _; trivial
+  | cons op ops ih =>
+    intro b hok
+    obtain ⟨h1, h2⟩ := hok
+    cases hout : (step b op).out with
+    | ok =>
+      simp only [eraseRejected, hout]
+      exact ⟨h1, ih _ h2⟩
+    | error e =>
+      simp only [eraseRejected, hout]
+      have hb := C05_reject_state b op e hout
+      rw [hb] at h2
+      exact ih b h2
+end GscribModel.MotionTie
+
+open GscribModel.MotionTie in
+/-- **C05 for the translated source**: run any history on the translated source, and run it again with every call the model
+    rejects left out: the builder the translated source ends in is the same, and - away from the listed call site - so is
+    everything it wrote. -/
+theorem SourceTie_C05 (ops : List Op) (b : B) (hok : HistOk b ops) :
+    let cx := b.ctx.map dmOf
+    (srcRun (absB b) cx (eraseRejected b ops)).1 = (srcRun (absB b) cx ops).1 ∧
+    (NoLeakSite b ops → (srcRun (absB b) cx (eraseRejected b ops)).2.map conv = (srcRun (absB b) cx ops).2.map conv) := by
+  obtain ⟨a1, a2⟩ := MotionTie_run ops b hok
+  obtain ⟨e1, e2⟩ := MotionTie_run (eraseRejected b ops) b (histOk_erase ops b hok)
+  obtain ⟨c1, c2⟩ := C05_history_erasure ops b
+  refine ⟨?_, fun hn => ?_⟩
+  · rw [← e1, ← a1, c1]
+  · rw [← e2, ← a2, c2 hn]
